@@ -25,6 +25,7 @@ def c18Race (args : List String) (impl : String) : String × String :=
       | ["fq", a, b] => methodGuarded ("FeeQuote." ++ a) && methodGuarded ("FeeQuote." ++ b)
       | ["fqs", a, b] => methodGuarded ("FeeQuotes." ++ a) && methodGuarded ("FeeQuotes." ++ b)
       | ["engine"] => GoBT.Gen.Shared.engineFields == 0 && GoBT.Gen.Shared.writtenGlobals.isEmpty
+      | ["scripts"] => GoBT.Gen.Shared.engineFields == 0 && GoBT.Gen.Shared.writtenGlobals.isEmpty
       | _ => false
     let model := if !predicted then "*" else if impl.startsWith "ok" then impl else "ok"
     let pred :=
